@@ -86,12 +86,25 @@ private:
    /// @since  1.35.0, 10.03.2020
    Singleton& operator =( Singleton&&) = delete;
 
+   /// Deletes the singleton object. Withdraws the published pointer first, so
+   /// that the object is not handed out anymore once it is destroyed: that
+   /// also holds when the static owner is destroyed at the end of the process
+   /// and instance() is called afterwards.
+   struct Deleter
+   {
+      void operator ()( T* object) const
+      {
+         mpPublished.store( nullptr, std::memory_order_release);
+         delete object;
+      } // Singleton< T>::Deleter::operator ()
+   }; // Singleton< T>::Deleter
+
    /// Mutex object used to make the creation/resetting of the singleton object
    /// thread-safe.
-   static std::mutex           mMutex;
+   static std::mutex                    mMutex;
    /// The singleton object, created when instance() is called for the first
    /// time.
-   static std::unique_ptr< T>  mpObject;
+   static std::unique_ptr< T, Deleter>  mpObject;
    /// Pointer to the singleton object for the check outside of the mutex:
    /// Published with release semantic after the object was created.
    static std::atomic< T*>     mpPublished;
@@ -100,7 +113,8 @@ private:
 
 
 template< class T> std::mutex           Singleton< T>::mMutex;
-template< class T> std::unique_ptr< T>  Singleton< T>::mpObject;
+template< class T>
+   std::unique_ptr< T, typename Singleton< T>::Deleter>  Singleton< T>::mpObject;
 template< class T> std::atomic< T*>     Singleton< T>::mpPublished{ nullptr};
 
 
